@@ -364,10 +364,19 @@ func gen(r *vu.Rng, i int) []string {
 		nreads = s.n + 2
 	}
 	// read limit: mostly generous; otherwise around the largest frame of the stream, or a boundary value
-	maxRead := uint32(1<<24 - 1)
+	// (a generous limit is usually 2^16: the Framer allocates Length bytes per frame, and 16 MiB
+	// buffers for garbage length fields only cost time)
+	maxRead := uint32(1 << 16)
+	if r.Chance(1, 12) {
+		maxRead = 1<<24 - 1
+	}
 	switch r.Intn(8) {
 	case 0:
-		maxRead = maxReadPool[r.Intn(len(maxReadPool))]
+		if r.Chance(1, 3) {
+			maxRead = maxReadPool[r.Intn(len(maxReadPool))]
+		} else {
+			maxRead = maxReadPool[r.Intn(12)]
+		}
 	case 1, 2:
 		var big uint32
 		for _, rf := range splitFrames(stream) {
